@@ -40,7 +40,10 @@ PY
   if [ -n "$viol" ]; then echo "$viol"; rc=1; fi
   if grep -q -h 'ERROR: libFuzzer: timeout\|ERROR: libFuzzer: out-of-memory' /verif/work/fuzzlogs/$prop/fuzz-*.log 2>/dev/null; then
      echo "INCONCLUSIVE: libFuzzer time-out/oom in $prop"; [ $rc -eq 0 ] && rc=2; fi
+  # a crash that is not the target's own VIOLATION abort (harness bug, stack overflow) decides nothing
+  if [ -z "$viol" ] && grep -q -h 'ERROR: libFuzzer: deadly signal\|ERROR: AddressSanitizer' /verif/work/fuzzlogs/$prop/fuzz-*.log 2>/dev/null; then
+     echo "INCONCLUSIVE: libFuzzer target crashed without reporting a violation in $prop (see work/fuzzlogs/$prop)"; [ $rc -eq 0 ] && rc=2; fi
 }
-run_one fz_genome "$ID" 600
+run_one fz_genome "$ID" 900
 if [ "$ID" = "C01" ]; then run_one fz_source C01src 256; fi
 exit $rc
